@@ -182,6 +182,11 @@ pub fn run(args: &[String]) -> i32 {
         for _ in 0..n_ops {
             let choice = crng.below(if use_ser { 16 } else { 13 });
             let v = vg.value(&mut crng, &schema, None, 0);
+            if vg.gave_up.replace(false) {
+                // this draw ran into a branch without a finite value (e.g. `R {f: [R]}` as one branch of a union): the
+                // placeholder is no value of the schema, skip the operation
+                continue;
+            }
             let enc = apache_avro::writer::datum::GenericDatumWriter::builder(&schema).validate(false).build().unwrap().write_value_to_vec(v.clone());
             let r = catch(|| -> Result<(), ()> {
                 match choice {
@@ -268,6 +273,9 @@ pub fn run(args: &[String]) -> i32 {
                     }
                     10..=11 => {
                         let vs: Vec<Value> = (0..crng.below(4)).map(|_| vg.value(&mut crng, &schema, None, 0)).collect();
+                        if vg.gave_up.replace(false) {
+                            return Ok(());
+                        }
                         descr.push(format!("extend {}", vs.len()));
                         // extend = append each, then flush: recorded as those ops with the summed result on the last
                         let before = sink.0.borrow().len();
@@ -366,7 +374,8 @@ pub fn run(args: &[String]) -> i32 {
                 if items.iter().any(|x| x.is_err()) {
                     out.oracle_fail("read-error", &format!("reading the written file fails: {:?}", items.iter().find(|x| x.is_err())), &case);
                 } else if ok_items.len() != log.len() || !ok_items.iter().zip(&log).all(|(a, b)| value_eq(a, b)) {
-                    out.oracle_fail("values-differ", &format!("file holds {} values, {} appends returned Ok; first difference at {:?}",
+                    let detail = if std::env::var("VERIF_FULL").is_ok() { format!(" ops={} results={}", op_list.join(" "), res_s) } else { String::new() };
+                    out.oracle_fail("values-differ", &format!("file holds {} values, {} appends returned Ok; first difference at {:?}{detail}",
                         ok_items.len(), log.len(), ok_items.iter().zip(&log).position(|(a, b)| !value_eq(a, b))), &case);
                 }
             }
